@@ -42,8 +42,8 @@ type concSpec struct {
 	ReplayFunc  string              `json:"replay_func"`
 	// a blocked state only counts as a deadlock if some thread runs a trace with this mark
 	// (waiting for a signal nobody was asked to send is not a defect of the code under test)
-	DeadlockIfMark string `json:"deadlock_if_mark"`
-	Expect      []string            `json:"expect_marks"`
+	DeadlockIfMark string   `json:"deadlock_if_mark"`
+	Expect         []string `json:"expect_marks"`
 }
 
 type concTemplate struct {
@@ -115,9 +115,40 @@ func recordTemplates(ld *loaded, sp *concSpec, pkgDir string, tier tierCfg, verb
 		if !tpl.Res.Complete || len(tpl.Res.Unsupported) > 0 {
 			return nil, fmt.Errorf("thread template %s could not be recorded completely: %v %v", name, tpl.Res.Unsupported, tpl.Res.Inconclusive)
 		}
+		out = append(out, tpl)
+	}
+	// events without any effect in the model are dropped (their scheduling point moves to the next
+	// event of the trace): marks the specification gives no check and no update, and writes to
+	// fields no trace ever reads
+	read := map[string]bool{}
+	for _, t := range out {
+		for _, p := range t.Paths {
+			for _, e := range p.Events {
+				if e.Kind == "rd" {
+					read[e.Field] = true
+				}
+			}
+		}
+	}
+	for _, tpl := range out {
+		for _, p := range tpl.Paths {
+			var kept []sym.ConcEvent
+			carry := false
+			for _, e := range p.Events {
+				mk, isMark := sp.Marks[e.Tag]
+				noop := (e.Kind == "mark" && e.Tag != sp.DeadlockIfMark && (!isMark || (len(mk.Check) == 0 && len(mk.Update) == 0))) || (e.Kind == "wr" && !read[e.Field])
+				if noop {
+					carry = carry || e.Yield
+					continue
+				}
+				e.Yield = e.Yield || carry
+				carry = false
+				kept = append(kept, e)
+			}
+			p.Events = kept
+		}
 		// deterministic order
 		sort.Slice(tpl.Paths, func(i, j int) bool { return pathKey(tpl.Paths[i]) < pathKey(tpl.Paths[j]) })
-		out = append(out, tpl)
 	}
 	return out, nil
 }
@@ -137,12 +168,12 @@ type concModel struct {
 	paths [][]*sym.ConcPath // paths[t]: the traces of the template thread t runs
 	tplOf []string          // tplOf[t]: that template's name
 	// state variables
-	fields map[string]string // shared field -> sort
-	wgs    []string
-	onces  []string
-	mus    []string
-	chans  []string
-	viol   []string // violation code (1-based) -> meaning
+	fields   map[string]string // shared field -> sort
+	wgs      []string
+	onces    []string
+	mus      []string
+	chans    []string
+	viol     []string // violation code (1-based) -> meaning
 	violKind []string
 }
 
@@ -568,6 +599,7 @@ func runConc(ld *loaded, sp *concSpec, pkgDir string, tier tierCfg, known []*sym
 	}
 	var cexs []*concCex
 	queries, unsat, sat, unknown := 0, 0, 0, 0
+	unknownBase := 0 // inconclusive queries at the smallest thread count (the bound every tier must decide)
 	solverTime := 0.0
 	var notes []string
 	obligations, discharged := 0, 0
@@ -610,7 +642,7 @@ func runConc(ld *loaded, sp *concSpec, pkgDir string, tier tierCfg, known []*sym
 		ask := func(name, q string, want []string) smtResult {
 			var res smtResult
 			for si, sv := range solvers {
-				r := runSMT(base+q, want, filepath.Join(outDir, fmt.Sprintf("conc_%s_%s.smt2", label, name)), sv, timeoutS)
+				r := runSMT(base+q, want, filepath.Join(outDir, fmt.Sprintf("conc_%s_%s_%s.smt2", tier.name, label, name)), sv, timeoutS)
 				jr.queries++
 				jr.solverTime += r.secs
 				jr.lines = append(jr.lines, fmt.Sprintf("  query %-22s %-40s steps=%d solver=%s: %s (%.1fs)", name, label, m.K, sv, r.status, r.secs))
@@ -737,7 +769,7 @@ func runConc(ld *loaded, sp *concSpec, pkgDir string, tier tierCfg, known []*sym
 	}
 	timeoutS := 300
 	if tier.idx == 1 {
-		timeoutS = 1800
+		timeoutS = 600
 	}
 	seen := map[string]bool{}
 	for n := 2; n <= T; n++ {
@@ -765,6 +797,9 @@ func runConc(ld *loaded, sp *concSpec, pkgDir string, tier tierCfg, known []*sym
 			unsat += jr.unsat
 			sat += jr.sat
 			unknown += jr.unknown
+			if n == 2 {
+				unknownBase += jr.unknown
+			}
 			obligations += jr.obligations
 			discharged += jr.discharged
 			solverTime += jr.solverTime
@@ -868,12 +903,15 @@ func runConc(ld *loaded, sp *concSpec, pkgDir string, tier tierCfg, known []*sym
 	b, _ := json.MarshalIndent(ev, "", " ")
 	os.WriteFile(filepath.Join(verifDir, "evidence", prop+".json"), b, 0o644)
 	fmt.Printf("property %s tier %s: %d thread templates, %d recorded paths, %d queries, %d violations, %d known findings seen, wall %.1fs\n", prop, tier.name, len(tpls), nPaths, queries, confirmedN, knownN, time.Since(t0).Seconds())
-	if exit == 0 && (unknown > 0 || len(ld.rewriteErrs) > 0) {
+	if unknown > unknownBase {
+		fmt.Printf("  NOTE %d queries beyond 2 threads were inconclusive within the time limit: those template assignments are outside what this run decided (listed above; obligations %d, discharged %d)\n", unknown-unknownBase, obligations, discharged)
+	}
+	if exit == 0 && (unknownBase > 0 || len(ld.rewriteErrs) > 0) {
 		for _, e := range ld.rewriteErrs {
 			fmt.Println("CHECK-ERROR rewrite:", e)
 		}
-		if unknown > 0 {
-			fmt.Println("CHECK-ERROR a query was inconclusive")
+		if unknownBase > 0 {
+			fmt.Println("CHECK-ERROR a two-thread query was inconclusive")
 		}
 		return 2
 	}
